@@ -61,6 +61,9 @@ pub enum EvFault {
     /// second copy of a pad chunk whose payload DIFFERS from the first but has the same CRC-32C
     /// (and the same header): a corruption the checksums cannot see - still a duplicated bank
     DupPadChunkSameCrc { msg: usize, chunk: usize },
+    /// every chunk header of message `msg` names ANOTHER known board (device id re-stamped, header
+    /// CRC recomputed) while the bank names and the MAC inside the packet still agree with each other
+    ChunkHeadersOtherBoard { msg: usize },
     /// a PWB board that is not installed for this run sends pad data
     BoardNotInstalled,
     UnknownBank { name: String },
@@ -105,6 +108,7 @@ impl EvFault {
             EvFault::DropPadChunk { .. } => "drop_pad_chunk",
             EvFault::DupAndDropPadChunk { .. } => "dup_and_drop_pad_chunk",
             EvFault::DupPadChunkSameCrc { .. } => "dup_pad_chunk_same_crc_other_payload",
+            EvFault::ChunkHeadersOtherBoard { .. } => "chunk_headers_name_another_board",
             EvFault::BoardNotInstalled => "board_not_installed",
             EvFault::UnknownBank { .. } => "unknown_bank",
             EvFault::MalformedWire { .. } => "malformed_wire",
@@ -441,6 +445,26 @@ pub fn apply_fault(ev: &mut BuiltEvent, f: &EvFault, run: u32) -> bool {
             ev.banks[bi] = BankSpec { name: "TRBA".into(), content: Content::Opaque(vec![]) };
             true
         }
+        EvFault::ChunkHeadersOtherBoard { msg } => {
+            if ev.pad_idx.is_empty() {
+                return false;
+            }
+            let m = ev.pad_idx[msg % ev.pad_idx.len()].clone();
+            let Content::Chunk(first) = &ev.banks[m[0]].content else { return false };
+            let cur = first.device_id;
+            let b = boards::pwb_boards();
+            let k = b.iter().position(|x| x.device_id == cur).unwrap_or(0);
+            let other = b[(k + 1 + msg % (b.len() - 1)) % b.len()].device_id;
+            if other == cur {
+                return false;
+            }
+            for &bi in &m {
+                if let Content::Chunk(c) = &mut ev.banks[bi].content {
+                    c.device_id = other;
+                }
+            }
+            true
+        }
         EvFault::DupPadChunkSameCrc { msg, chunk } => {
             if ev.pad_idx.is_empty() {
                 return false;
@@ -706,6 +730,7 @@ pub fn all_faults(r: &mut Rng) -> Vec<EvFault> {
         EvFault::DupAndDropPadChunk { msg: i, dup: j, lost: j + 1 },
         EvFault::DupAndDropPadChunk { msg: j, dup: i + 1, lost: i },
         EvFault::DupPadChunkSameCrc { msg: i, chunk: j },
+        EvFault::ChunkHeadersOtherBoard { msg: i },
     ]
 }
 
@@ -821,12 +846,12 @@ impl Check for C10Check {
     }
     fn count(&self, tier: Tier) -> u64 {
         match tier {
-            Tier::Quick => 46 * 36 + 172 + N_HISTORY_QUICK,
-            Tier::Thorough => 2000 * 36 + 6000 + N_HISTORY_THOROUGH,
+            Tier::Quick => 46 * 37 + 172 + N_HISTORY_QUICK,
+            Tier::Thorough => 2000 * 37 + 6000 + N_HISTORY_THOROUGH,
         }
     }
     fn generate(&self, seed: u64, index: u64, tier: Tier) -> Value {
-        let n_faulted = if tier == Tier::Quick { 46 * 36 } else { 2000 * 36 };
+        let n_faulted = if tier == Tier::Quick { 46 * 37 } else { 2000 * 37 };
         let n_consistent = if tier == Tier::Quick { 172 } else { 6000 };
         if index >= n_faulted + n_consistent {
             // history scenarios: 1-3 other events (mostly faulted, i.e. rejected somewhere inside
@@ -875,6 +900,17 @@ impl Check for C10Check {
                 suppressed_only: false,
             };
             let mut base = base;
+            if j % 4 == 3 {
+                // every run number at which the CURRENT sources switch a map or a calibration (and its
+                // neighbours), in turn, with all 256 wire channels: a window added to a table later is
+                // visited without touching this harness. (Runs without calibration are rejected by the
+                // reference too; what must never happen is a panic.)
+                let b = crate::eventgen::run_boundaries();
+                if !b.is_empty() {
+                    base.run = b[((j / 4) as usize) % b.len()];
+                    base.n_wires = 256;
+                }
+            }
             if j % 6 == 5 {
                 // channels without data only: no map or calibration is needed, whatever the run
                 const ANY_RUNS: [u32; 9] = [0, 2940, 2941, 6999, 7026, 9276, 11084, 12000, u32::MAX];
@@ -887,9 +923,9 @@ impl Check for C10Check {
             let scn = Scn { base, fault: None, order_seeds: vec![0, r.next_u64() | 2], hash_keys: vec![r.next_u64()], pred: vec![] };
             return serde_json::to_value(scn).unwrap();
         }
-        // base event k = index / 36, fault slot = index % 36 (0 = none)
-        let k = index / 36;
-        let slot = (index % 36) as usize;
+        // base event k = index / 37, fault slot = index % 37 (0 = none)
+        let k = index / 37;
+        let slot = (index % 37) as usize;
         let base_seed = simcore::run_seed(simcore::driver::verif_seed(), "C10-base", k);
         let mut rb = Rng::new(base_seed);
         let run = RUNS[(k % RUNS.len() as u64) as usize];
